@@ -2344,7 +2344,7 @@ func simplifyTotality(p *Plan) []*Plan {
 func init() {
 	register(&Profile{
 		ID: "C09", Name: "totality", Level: "fault_enumeration",
-		Rule: "a run is either (1) a back-channel fault sequence: 1-4 artifact resolutions (ParseResponse with SAMLart) / FetchMetadata calls through a SimTransport, each with one fault kind of the enumeration {conn_err, status 401/404/500/503/302(+Location), empty, truncated(err|clean)@permille, slow(chunks x delay), stall headers|body until the client/context deadline, garbage, SOAP fault, 10 wrong envelopes, wrong InResponseTo(other|absent|previous), bad status, unsigned, wrong key, good} - every kind x position is covered and counted in extra[cov:...]; or (2) 1-3 in-flight inputs: a foreign IdP omits a sampled subset of optional elements/attributes and re-signs (Response, Assertion plaintext/encrypted in R/A/RA signing layouts, LogoutResponse, AuthnRequest, registered SP metadata, metadata documents), or the network corrupts a genuine message (truncate, bit flips, base64 cut/pad/bad char, deflate-layer damage, rootless documents, depth-10k nesting, MB-sized attribute, CipherValue of 0-4 blocks(+1), foreign plaintext under valid encryption), or a 12-300 MB deflate bomb, on every consuming entry point of SP, IdP, bundled server and metadata parser. Part (1) is enumerated, part (2) is sampled. non-trivial = the run contains at least one input that is not the genuine message / at least one injected back-channel fault; distinct = distinct abstract event log (entry, shape, parameters, expectation, outcome class)",
+		Rule: "a run is either (1) a back-channel fault sequence: 1-4 artifact resolutions (ParseResponse with SAMLart) / FetchMetadata calls through a SimTransport, each with one fault kind of the enumeration {conn_err, status 401/404/500/503/302(+Location), empty, truncated(err|clean)@permille, slow(chunks x delay), stall headers|body until the client/context deadline, garbage, SOAP fault, 10 wrong envelopes, wrong InResponseTo(other|absent|previous), bad status, unsigned, wrong key, good} - every kind x position is covered and counted in extra[cov:...]; or (2) 1-3 in-flight inputs: a foreign IdP omits a sampled subset of optional elements/attributes and re-signs (Response, Assertion plaintext/encrypted in R/A/RA signing layouts, LogoutResponse, AuthnRequest, registered SP metadata, metadata documents), or the network corrupts a genuine message (truncate, bit flips, base64 cut/pad/bad char, deflate-layer damage, rootless documents, depth-10k nesting, MB-sized attribute, CipherValue of 0-4 blocks(+1), foreign plaintext under valid encryption), or a 12-300 MB deflate bomb, on every consuming entry point of SP, IdP, bundled server and metadata parser. Part (1) is enumerated, part (2) is sampled. non-trivial = the run contains at least one input that is not the genuine message / at least one injected back-channel fault; distinct = distinct abstract event log (entry, shape, parameters, expectation, outcome class); back-channel faults include a body whose Close fails, an endless chain of 307 redirects to fresh URLs (more than 200 back-channel requests in one call is a hang) and a body shorter or longer than its announced length; 30% of artifact deliveries present a well-formed type-4 artifact with endpoint index 0,1,2,3 or 65535",
 		Gen:  genTotality, Exec: execTotality, Simplify: simplifyTotality,
 		RunsQuick: 3000, RunsThorough: 300000,
 		Assumptions: []string{
